@@ -1,6 +1,8 @@
 package scen
 
 import (
+	"syscall"
+
 	"sonicverif/sim"
 )
 
@@ -8,6 +10,7 @@ import (
 
 var c01pTwoActs = sim.RegStat("probe:c01-handler-did-two-things")
 var c01pStolen = sim.RegStat("probe:c01-handler-took-a-queued-connection-with-blocking-accept")
+var c01pRefused = sim.RegStat("probe:c01-registration-refused-by-epoll_ctl-object-used-again")
 
 var c01Kinds = []lKind{lkConnDial, lkConnAcc, lkAdapter, lkFifoR, lkFifoW, lkRegular, lkListener, lkPacket, lkPeer, lkConnUDP}
 
@@ -200,7 +203,26 @@ func runC01(c *Ctx, variant int) {
 	d.chain = w.Pick(5, 0, 40, 70)
 	steps := w.Range(8, c.Deep(40))
 	for i := 0; i < steps; i++ {
-		switch w.Choose(12) {
+		switch w.Choose(13) {
+		case 12:
+			// the kernel refuses one registration (epoll_ctl: ENOMEM, ENOSPC): that operation completes once with the
+			// error, and the object is as usable as before - what is started on it afterwards (same direction
+			// included) completes, and a Cancel completes nothing a second time
+			o := d.pickObj()
+			w.FailNth(sim.CkEpollCtl, 1, syscall.Errno(w.Pick(int(syscall.ENOMEM), int(syscall.ENOSPC))))
+			before := d.cbRuns
+			started := d.startSomething(o, w.Chance(1, 2), 0)
+			w.FailNth(sim.CkEpollCtl, 0, 0)
+			if started && d.cbRuns > before && d.ops[len(d.ops)-1].err != nil {
+				w.Stat(c01pRefused)
+				switch w.Choose(3) {
+				case 0:
+					d.doCancel(o)
+				case 1:
+					d.startSomething(o, true, 0)
+					d.startSomething(o, false, 0)
+				}
+			}
 		case 0, 1, 2, 3:
 			d.startSomething(d.pickObj(), w.Chance(2, 3), w.Choose(10))
 		case 4, 5, 6:
